@@ -8,7 +8,7 @@ use serde_json::{Value, json};
 use std::cell::RefCell;
 use std::io::{BufRead, BufReader, Write};
 use std::path::{Path, PathBuf};
-use std::process::{Child, ChildStdin, ChildStdout, Command, Stdio};
+use std::process::{Child, ChildStdin, Command, Stdio};
 use std::time::{Duration, Instant};
 use vh::vcore::*;
 use vh::vnode::Scratch;
@@ -142,7 +142,10 @@ pub fn reader_main() -> ! {
 pub struct Reader {
     child: Child,
     stdin: ChildStdin,
-    stdout: BufReader<ChildStdout>,
+    rx: std::sync::mpsc::Receiver<String>,
+    /// the reader was killed because a step did not return (SQLite retries a WAL read lock for
+    /// about ten seconds before giving up); every later step of that reader is refused
+    dead: bool,
 }
 
 impl Reader {
@@ -150,27 +153,57 @@ impl Reader {
         let exe = std::env::current_exe().unwrap();
         let mut child = Command::new(exe).arg("--reader").stdin(Stdio::piped()).stdout(Stdio::piped()).stderr(Stdio::null()).spawn().expect("spawn reader");
         let stdin = child.stdin.take().unwrap();
-        let stdout = BufReader::new(child.stdout.take().unwrap());
-        Reader { child, stdin, stdout }
+        let mut stdout = BufReader::new(child.stdout.take().unwrap());
+        let (tx, rx) = std::sync::mpsc::channel();
+        std::thread::spawn(move || {
+            loop {
+                let mut line = String::new();
+                match stdout.read_line(&mut line) {
+                    Ok(0) | Err(_) => break,
+                    Ok(_) => {
+                        if tx.send(line).is_err() {
+                            break;
+                        }
+                    }
+                }
+            }
+        });
+        Reader { child, stdin, rx, dead: false }
     }
+    pub fn is_dead(&self) -> bool {
+        self.dead
+    }
+    /// One step of the reader. A step that does not return within 250 ms is SQLite's own retry loop
+    /// (it sleeps and retries a WAL read lock for up to ~10 s): the reader process is killed - it gave
+    /// up, which releases whatever it held - and the step counts as refused.
     pub fn cmd(&mut self, c: &str) -> Value {
+        if self.dead {
+            return json!({"ok": false, "code": "ReaderGaveUp"});
+        }
         if writeln!(self.stdin, "{c}").is_err() {
             machinery_error("reader process is gone");
         }
         let _ = self.stdin.flush();
-        let mut line = String::new();
-        if self.stdout.read_line(&mut line).unwrap_or(0) == 0 {
-            machinery_error("reader process closed its output");
+        match self.rx.recv_timeout(Duration::from_millis(250)) {
+            Ok(line) => serde_json::from_str(&line).unwrap_or_else(|_| machinery_error("reader answered garbage")),
+            Err(std::sync::mpsc::RecvTimeoutError::Timeout) => {
+                let _ = self.child.kill();
+                let _ = self.child.wait();
+                self.dead = true;
+                json!({"ok": false, "code": "StillRetryingGaveUp"})
+            }
+            Err(_) => machinery_error("reader process closed its output"),
         }
-        serde_json::from_str(&line).unwrap_or_else(|_| machinery_error("reader answered garbage"))
     }
 }
 
 impl Drop for Reader {
     fn drop(&mut self) {
-        let _ = writeln!(self.stdin, "quit");
-        let _ = self.stdin.flush();
-        let _ = self.child.wait();
+        if !self.dead {
+            let _ = writeln!(self.stdin, "quit");
+            let _ = self.stdin.flush();
+            let _ = self.child.wait();
+        }
     }
 }
 
@@ -390,10 +423,15 @@ fn file_digest(p: &Path) -> u64 {
 pub fn run_case_b(t: &Templates, case: &CaseB, reader: Reader, scratch: &Path) -> (OutB, Reader) {
     let tpl = &t.dst.iter().find(|d| d.0 == case.mode).unwrap().1;
     let src = t.src.iter().find(|d| d.0 == case.size).unwrap().1.clone();
+    let t_case = Instant::now();
+    let timing = std::env::var("VH_TIMING").is_ok();
     let dir = scratch.join("run");
     let _ = std::fs::remove_dir_all(&dir);
     let db = instantiate(tpl, &dir);
     let before = file_digest(&db);
+    if timing {
+        eprintln!("setup {:?}", t_case.elapsed());
+    }
     let prog = program(case.two_txns);
     assert_eq!(prog.len(), case.at.len());
     CTRL.with(|c| {
@@ -401,6 +439,9 @@ pub fn run_case_b(t: &Templates, case: &CaseB, reader: Reader, scratch: &Path) -
     });
     CTRL.with(|c| run_steps_at(c.borrow_mut().as_mut().unwrap(), "start"));
     let res = klukai_types::sqlite3_restore::restore(&src, &db, Duration::from_millis(15));
+    if timing {
+        eprintln!("restore returned {:?} ok={}", t_case.elapsed(), res.is_ok());
+    }
     let after_fail_digest = file_digest(&db);
     // whatever was scheduled at points the restore never reached runs now, then the rest
     let mut ctrl = CTRL.with(|c| c.borrow_mut().take().unwrap());
@@ -466,7 +507,7 @@ pub fn run_case_b(t: &Templates, case: &CaseB, reader: Reader, scratch: &Path) -
         Ok(_) => {}
     }
     // a fresh reader afterwards: entirely new after success, entirely old after failure
-    let mut rd = ctrl.reader;
+    let mut rd = if ctrl.reader.is_dead() { Reader::spawn() } else { ctrl.reader };
     let _ = rd.cmd(&format!("open {}", db.display()));
     let a = rd.cmd("read");
     let _ = rd.cmd("close");
@@ -477,6 +518,9 @@ pub fn run_case_b(t: &Templates, case: &CaseB, reader: Reader, scratch: &Path) -
             if res.is_ok() { "C19:restored-database-is-not-the-backup".into() } else { "C19:database-not-intact-after-failed-restore".into() },
             json!({"answer": a, "restore": format!("{:?}", res.as_ref().map(|_| ()).map_err(|e| e.to_string())), "log": describe}),
         ));
+    }
+    if timing {
+        eprintln!("case done {:?}", t_case.elapsed());
     }
     out.outcome = digest(&(out.restore_ok, out.refused, out.saw_old, out.saw_new, out.corrupt));
     (out, rd)
@@ -541,7 +585,7 @@ pub fn part_b(rep: &Report, tier: Tier, deadline: Instant) -> Value {
     }
     for (mode, pts) in &points_by_mode {
         for size in [NewSize::Larger, NewSize::Smaller] {
-            if tier == Tier::Quick && size == NewSize::Smaller && *mode != DstMode::WalClean {
+            if tier == Tier::Quick && size == NewSize::Smaller {
                 continue;
             }
             for two in [false, true] {
